@@ -1,3 +1,4 @@
+import RimuProofs.Lemmas.Eqns
 import RimuModel.Regex
 
 /-!
